@@ -193,6 +193,13 @@ func genManifest(r *Rng) []mObj {
 		if r.Chance(25) {
 			o.Labels["app"] = Pick(r, dataVals)
 		}
+		if r.Chance(10) {
+			// the chart itself sets ownership metadata (kustomize / operator output wrapped in a chart)
+			o.Labels["app.kubernetes.io/managed-by"] = Pick(r, []string{"kustomize", "Tiller", "Helm"})
+		}
+		if r.Chance(5) {
+			o.Annos["meta.helm.sh/release-name"] = Pick(r, []string{"other", "app"})
+		}
 		switch r.Intn(10) {
 		case 0, 1:
 			o.Annos["helm.sh/resource-policy"] = "keep"
@@ -605,6 +612,9 @@ func kubeSuccessMonitors(rep *Report, st kubeStep, before, after, deployed, targ
 			}
 			for _, pair := range []struct{ want, got map[string]string }{{t.Data, live.Data}, {t.Labels, live.Labels}, {t.Annos, live.Annos}} {
 				for k, v := range pair.want {
+					if k == "app.kubernetes.io/managed-by" || k == "meta.helm.sh/release-name" || k == "meta.helm.sh/release-namespace" {
+						continue // Helm's own ownership metadata overrides what the chart says (checked below)
+					}
 					if pair.got[k] != v {
 						fp := "C02:field-not-applied"
 						if !t.Typed && !st.Force {
